@@ -8,6 +8,7 @@ package vfc20
 // monitor (independent Go oracle).
 
 import (
+	"bytes"
 	"encoding/json"
 	"fmt"
 	"reflect"
@@ -73,6 +74,27 @@ type Case struct {
 	Window string `json:"window,omitempty"`
 	// Parallel > 0: mode "send" runs the real SendRdb with that many workers
 	Parallel int `json:"parallel,omitempty"`
+	// HashTag: replaceHashTag on — the target key is the snapshot key without its
+	// first "{" and first "}"; Pre keys are TARGET keys
+	HashTag bool `json:"hashtag,omitempty"`
+}
+
+// TKey: the key a snapshot key is replayed to.
+func (c *Case) TKey(key []byte) []byte {
+	if !c.HashTag {
+		return key
+	}
+	k := bytes.Replace(key, []byte("{"), []byte(""), 1)
+	return bytes.Replace(k, []byte("}"), []byte(""), 1)
+}
+
+// TargetKVs: the snapshot's keys as they are expected on the target.
+func (c *Case) TargetKVs() []KV {
+	kvs := c.KVList()
+	for i := range kvs {
+		kvs[i].Key = c.TKey(kvs[i].Key)
+	}
+	return kvs
 }
 
 // NormalPolicy: what the configuration documents for a policy string.
@@ -275,7 +297,10 @@ func (c *Case) Prepare() *Run {
 func (c *Case) Keys() []DK {
 	m := map[DK]bool{}
 	for _, k := range c.KVs {
-		m[DK{k.DB, string(vfutil.UnHex(k.Key))}] = true
+		m[DK{k.DB, string(c.TKey(vfutil.UnHex(k.Key)))}] = true
+		if c.HashTag {
+			m[DK{k.DB, string(vfutil.UnHex(k.Key))}] = true // nothing may appear under the unrewritten key
+		}
 	}
 	for _, p := range c.Pre {
 		m[DK{p.DB, string(vfutil.UnHex(p.Key))}] = true
@@ -353,7 +378,11 @@ func Emit(s *vfutil.Session, idx int, c *Case, r *Run) {
 	for _, k := range ks {
 		fin = append(fin, fmt.Sprintf("%d:%s", k.DB, vfutil.HexS(k.Key)))
 	}
-	op := fmt.Sprintf("c20 tag=%d mode=%s pol=%s restore=%s maxbulk=%d ver5=%s now=%d pre=%s bad=%s fin=%s ents=%s", idx, c.Mode, c.Pol[:1],
+	rht := ""
+	if c.HashTag {
+		rht = " rht=1"
+	}
+	op := fmt.Sprintf("c20 tag=%d"+rht+" mode=%s pol=%s restore=%s maxbulk=%d ver5=%s now=%d pre=%s bad=%s fin=%s ents=%s", idx, c.Mode, c.Pol[:1],
 		b01(c.Restore), c.MaxBulk, ver5, int64(BubbleNowMs), join(pre, ","), join(c.Bad, ","), join(fin, ","), join(ents, ";"))
 	var out []string
 	li := 0
@@ -439,7 +468,7 @@ func viol(s *vfutil.Session, what, detail string, c *Case) {
 
 // Check is the C20 property monitor on what the real code did.
 func Check(s *vfutil.Session, c *Case, r *Run) {
-	kvs := c.KVList()
+	kvs := c.TargetKVs()
 	pre := map[DK]bool{}
 	for _, p := range c.Pre {
 		pre[DK{p.DB, string(vfutil.UnHex(p.Key))}] = true
@@ -480,7 +509,7 @@ func Check(s *vfutil.Session, c *Case, r *Run) {
 	}
 	viaRestore := func(kv KV) bool {
 		for _, e := range r.Ents {
-			if string(e.Key) == string(kv.Key) && e.DB == kv.DB {
+			if string(c.TKey(e.Key)) == string(kv.Key) && e.DB == kv.DB {
 				return c.Restore && e.CanRestore && e.DumpSize <= c.MaxBulk && !e.Splited && !c.IsBad(kv.Key)
 			}
 		}
@@ -570,13 +599,22 @@ func Check(s *vfutil.Session, c *Case, r *Run) {
 			viol(s, "foreign-key-modified", fmt.Sprintf("key %q (db %d) not in the snapshot changed", k.Key, k.DB), c)
 		}
 	}
+	if c.HashTag {
+		// replaceHashTag: nothing is written under the unrewritten key
+		for _, kv := range c.KVList() {
+			k := DK{kv.DB, string(kv.Key)}
+			if !snap[k] && !SameVal(r.Before[k], r.After[k]) {
+				viol(s, "hashtag-original-key-written", fmt.Sprintf("replaceHashTag: the snapshot key %q itself (not its rewritten form %q) was written: %+v", k.Key, c.TKey(kv.Key), r.After[k]), c)
+			}
+		}
+	}
 }
 
 // CheckParallel: the monitor for mode "send" (the real SendRdb with several
 // workers: no request order to compare, other workers may have applied any
 // subset when one of them stops on the `error` policy).
 func CheckParallel(s *vfutil.Session, c *Case, r *Run) {
-	kvs := c.KVList()
+	kvs := c.TargetKVs()
 	pre := map[DK]bool{}
 	for _, p := range c.Pre {
 		pre[DK{p.DB, string(vfutil.UnHex(p.Key))}] = true
@@ -622,7 +660,7 @@ func CheckParallel(s *vfutil.Session, c *Case, r *Run) {
 		}
 		viaRestore := false
 		for _, e := range r.Ents {
-			if string(e.Key) == k.Key && e.DB == k.DB {
+			if string(c.TKey(e.Key)) == k.Key && e.DB == k.DB {
 				viaRestore = c.Restore && e.CanRestore && e.DumpSize <= c.MaxBulk && !e.Splited && !c.IsBad(kv.Key)
 				break
 			}
@@ -650,7 +688,7 @@ func CheckParallel(s *vfutil.Session, c *Case, r *Run) {
 // CheckWindow: a client created the key between the EXISTS probe and the
 // unit's EXEC (bidirectional replay, RESTORE path).
 func CheckWindow(s *vfutil.Session, c *Case, r *Run) {
-	kv := c.KVList()[0]
+	kv := c.TargetKVs()[0]
 	k := DK{kv.DB, string(kv.Key)}
 	conc := &vfdoubles.Val{Kind: "string", Str: []byte("CONCURRENT")}
 	switch c.Pol {
@@ -798,6 +836,21 @@ func GenCase(r *vfutil.Rand, mode string, dbs int) *Case {
 		}
 	}
 	c.Log = r.Chance(1, 5)
+	if r.Chance(1, 4) {
+		// replaceHashTag with tagged keys; the rewritten keys stay distinct
+		c.HashTag = true
+		used := map[string]bool{}
+		for i := range c.KVs {
+			base := fmt.Sprintf("k%d", i)
+			key := vfutil.Pick(r, []string{"{t}" + base, base + "{t}", "a{" + base + "}z", "}" + base + "{", "{{" + base + "}}", base, "{" + base, "{}" + base})
+			id := fmt.Sprintf("%d/%s", c.KVs[i].DB, c.TKey([]byte(key)))
+			if used[id] {
+				key = base
+			}
+			used[fmt.Sprintf("%d/%s", c.KVs[i].DB, c.TKey([]byte(key)))] = true
+			c.KVs[i].Key = vfutil.HexS(key)
+		}
+	}
 	if mode != "bisync" && c.Restore && r.Chance(1, 4) {
 		// a target that cannot load some payloads ("Bad data format")
 		for _, kv := range c.KVs {
@@ -812,14 +865,14 @@ func GenCase(r *vfutil.Rand, mode string, dbs int) *Case {
 			if r.Bool() {
 				kind = vfutil.Pick(r, Kinds)
 			}
-			p := Pre{DB: kv.DB, Key: kv.Key, Kind: kind}
+			p := Pre{DB: kv.DB, Key: vfutil.Hex(c.TKey(vfutil.UnHex(kv.Key))), Kind: kind}
 			if r.Chance(1, 3) {
 				p.TTL = int64(r.Range(1000, 900000))
 			}
 			c.Pre = append(c.Pre, p)
 		} else if dbs > 1 && r.Chance(1, 4) {
 			// the same key name in the OTHER db must not matter
-			c.Pre = append(c.Pre, Pre{DB: 1 - kv.DB, Key: kv.Key, Kind: vfutil.Pick(r, Kinds)})
+			c.Pre = append(c.Pre, Pre{DB: 1 - kv.DB, Key: vfutil.Hex(c.TKey(vfutil.UnHex(kv.Key))), Kind: vfutil.Pick(r, Kinds)})
 		}
 	}
 	if r.Chance(1, 4) {
@@ -857,6 +910,44 @@ func ExhaustiveTwins(mode string) []*Case {
 						c.Pre = append(c.Pre, Pre{DB: 1, Key: h1.Key, Kind: "hash"})
 					}
 					out = append(out, c)
+				}
+			}
+		}
+	}
+	return out
+}
+
+// ExhaustiveHashTag: replaceHashTag with a tagged key: a string, a list and a
+// split hash × prior (none / rewritten key held / unrewritten key held) ×
+// policy × restore.
+func ExhaustiveHashTag(mode string) []*Case {
+	var out []*Case
+	for _, key := range []string{"{tag}key", "ke{y}", "}k{"} {
+		for _, ty := range []int{0, 1, 4} {
+			for _, pol := range []string{"replace", "ignore", "error"} {
+				for _, restore := range []bool{false, true} {
+					for pm := 0; pm < 3; pm++ {
+						kv := KVSpec{Key: vfutil.HexS(key), Type: ty, Exp: 2}
+						thr := 0
+						switch ty {
+						case 0:
+							kv.Str = vfutil.HexS("val")
+						case 1:
+							kv.Items = []string{vfutil.HexS("a"), vfutil.HexS("b")}
+						case 4:
+							kv.Items = []string{vfutil.HexS("f1"), vfutil.HexS("v1"), vfutil.HexS("f2"), vfutil.HexS("v2"), vfutil.HexS("f3"), vfutil.HexS("v3")}
+							thr = 1
+						}
+						c := &Case{Mode: mode, Pol: pol, Restore: restore, Thr: thr, MaxBulk: 1 << 29, Ver: "7.0.0", KVs: []KVSpec{kv}, HashTag: true}
+						tk := vfutil.Hex(c.TKey([]byte(key)))
+						switch pm {
+						case 1:
+							c.Pre = []Pre{{Key: tk, Kind: kindOf(ty), TTL: 60000}}
+						case 2:
+							c.Pre = []Pre{{Key: vfutil.HexS(key), Kind: kindOf(ty)}} // the unrewritten name is somebody else's key
+						}
+						out = append(out, c)
+					}
 				}
 			}
 		}
